@@ -5,7 +5,7 @@
    rationals) and Stats/Buckets.v (Stats, BucketStats, Monitor.update,
    AverageStats as a state machine).  Flags: (fix_f21, fix_f22) of [collect],
    record [fixes] of [mstep]; [pinned] = the code as it is, [all_fixed] = with
-   the proposed repairs F21, F22, C19-N1, C19-N2. *)
+   the proposed repairs F21, F22, C19-N1, C19-N2, C19-N3. *)
 From Coq Require Import List QArith ZArith String Permutation.
 Import ListNotations.
 From Onet Require Import Base.Corr Stats.Welford Stats.WelfordProofs Stats.Buckets
@@ -166,6 +166,22 @@ Theorem c19_order_invariant_pinned_first : forall a b, Permutation a b ->
 Proof. exact order_invariant_pinned_first. Qed.
 Print Assumptions c19_order_invariant_pinned_first.
 
+(* at the monitor: two runs receiving the same measures in different orders
+   (any scheduling of the reporting connections) hold, in the global result
+   set (i = 0) and in every bucket (i = j+1), permutations of the same values,
+   hence the same exact statistics *)
+Theorem c19_arrival_order_irrelevant : forall fx st bs ms ms',
+  NoDup (map fst bs) ->
+  (forall b, In b bs -> snd (parse_rules (snd b)) = true) ->
+  Permutation ms ms' ->
+  let m := fst (mrun fx (init_state st) (setups bs ++ mops ms)) in
+  let m' := fst (mrun fx (init_state st) (setups bs ++ mops ms')) in
+  forall i k, (i <= List.length bs)%nat ->
+    Permutation (store_at m i k) (store_at m' i k) /\
+    snap_eq (exact (store_at m i k)) (exact (store_at m' i k)).
+Proof. exact arrival_order_irrelevant. Qed.
+Print Assumptions c19_arrival_order_irrelevant.
+
 (* ---- averaging ------------------------------------------------------------------------ *)
 
 Theorem c19_average_is_union : forall vs,
@@ -243,7 +259,7 @@ Print Assumptions c19_fixed_never_fails.
 Theorem c19_malformed_rule_crash_refuted :
   exists ops, ops = [OSetBucket 0 ["5:7"; ":3"]; OMeasure "a" 1 6] /\
     dead (fst (mrun pinned (init_state []) ops)) = Some FCrash /\
-    dead (fst (mrun (mkFix false false true false) (init_state []) ops)) = None.
+    dead (fst (mrun (mkFix false false true false false) (init_state []) ops)) = None.
 Proof. exact malformed_rule_crash_witness. Qed.
 Print Assumptions c19_malformed_rule_crash_refuted.
 
@@ -251,9 +267,24 @@ Print Assumptions c19_malformed_rule_crash_refuted.
 Theorem c19_average_lock_leak_refuted :
   exists ops, ops = [ONew; ODirect 1 "a" 1; ONew; ODirect 2 "b" 2; OAverage [1%nat; 2%nat]; OValues 2] /\
     dead (fst (mrun pinned (init_state []) ops)) = Some FDeadlock /\
-    dead (fst (mrun (mkFix false false false true) (init_state []) ops)) = None.
+    dead (fst (mrun (mkFix false false false true false) (init_state []) ops)) = None.
 Proof. exact average_lock_leak_witness. Qed.
 Print Assumptions c19_average_lock_leak_refuted.
+
+(* C19-N3: a message that fails to decode (truncated by a dying host, wrong
+   type, garbage) is forwarded half-filled by the pinned handleConnection: a
+   measure nobody recorded is reported *)
+Theorem c19_undecodable_message_refuted :
+  exists ops, ops = [OWire "a" 1 2; OWireErr "" 0 0] /\
+    out_keys (final_out pinned [] ops (OValues 0)) = [""; "a"] /\
+    out_keys (final_out (mkFix false false false false true) [] ops (OValues 0)) = ["a"].
+Proof. exact undecodable_message_witness. Qed.
+Print Assumptions c19_undecodable_message_refuted.
+
+Theorem c19_undecodable_message_ignored : forall fx m k x h,
+  fxN3 fx = true -> fst (mstep fx m (OWireErr k x h)) = m.
+Proof. exact undecodable_message_ignored. Qed.
+Print Assumptions c19_undecodable_message_ignored.
 
 (* ---- the checker used on observations ---------------------------------------------------- *)
 
@@ -276,3 +307,17 @@ Theorem c19_checker_exact_clauses : forall bits e,
   reported_num bits e 0 <-> exists q, decode bits = FNum q /\ q == e.
 Proof. exact reported_num_exact. Qed.
 Print Assumptions c19_checker_exact_clauses.
+
+(* per result set: the checker reports nothing iff the reported rows are, in
+   order, exactly the recorded measure names (sorted), each accepted by the
+   per-measure comparison against the exact statistics of its recorded values *)
+Theorem c19_checker_rows : forall kc r o,
+  rows_check kc (keys_of r) r o = [] <-> Forall2 (row_ok r) (keys_of r) o.
+Proof. exact rows_check_keys_of. Qed.
+Print Assumptions c19_checker_rows.
+
+(* the routing predicate of the checker's book-keeping = "host named by a range" *)
+Theorem c19_checker_routing : forall rr h,
+  in_ranges rr h = true <-> ((0 <= h)%Z /\ exists lo hi, In (lo, hi) rr /\ (lo <= h < hi)%Z).
+Proof. exact in_ranges_spec. Qed.
+Print Assumptions c19_checker_routing.
